@@ -164,7 +164,11 @@ def run_shard(spec, tier, scratch):
         if spec.get("big"):
             check_index(res, g, L, lm, stable, recs[:40], ("bgzip64k",), scratch, "big", pad=150_000)
             check_index(res, g, L, lm, stable, recs[:40], ("pysam",), scratch, "bigp", pad=150_000)
-            res.count("files_over_64k", 2)
+            # beyond 8 MiB (a reader working in large chunks meets a chunk boundary inside a record)
+            check_index(res, g, L, lm, stable, recs[:40], ("plain",), scratch, "huge", pad=9_500_000)
+            check_index(res, g, L, lm, stable, recs[:40], ("bgzip64k",), scratch, "hugez", pad=9_500_000)
+            res.count("files_over_64k", 4)
+            res.count("files_over_8MiB", 2)
     if urecs:
         res.sample({"layout": L.name, "links": lm, "unstable": urecs[len(urecs) // 2].line(), "stable": srecs[len(urecs) // 2].line(), "nodes": {n: [s.SN, s.SO, s.SO + s.LN] for n, s in g.segs.items()}})
     return res
